@@ -43,7 +43,8 @@ theorem keys_ddel_sub {β} (k : Str) (l : List (Str × β)) : (keys (ddel k l)).
   | cons p r ih =>
     obtain ⟨k', v'⟩ := p
     by_cases h : k' = k
-    · simp [ddel, keys, h]
+    · simp only [ddel, h, if_true, keys, List.map_cons]
+      exact List.Sublist.cons _ ih
     · simp only [ddel, h, if_false, keys, List.map_cons]
       exact List.Sublist.cons_cons _ ih
 
@@ -54,7 +55,7 @@ theorem not_mem_keys_ddel {β} (k : Str) (l : List (Str × β)) (h : (keys l).No
     obtain ⟨k', v'⟩ := p
     simp only [keys, List.map_cons, List.nodup_cons] at h
     by_cases hk : k' = k
-    · subst hk; simpa [ddel, keys] using h.1
+    · subst hk; simp only [ddel, if_true]; exact ih h.2
     · have h' : ¬ k = k' := fun e => hk e.symm
       simp only [ddel, hk, if_false, keys, List.map_cons, List.mem_cons, h', false_or]
       exact ih h.2
